@@ -241,8 +241,8 @@ class SymH:
     def note(self, s):
         self.notes.append(s)
 
-    def policy(self, gather=None, sort=None, search=None, nonlinear=None):
-        self.np.set_policy(gather=gather, sort=sort, search=search)
+    def policy(self, gather=None, sort=None, search=None, nonlinear=None, fold=None):
+        self.np.set_policy(gather=gather, sort=sort, search=search, fold=fold)
         if nonlinear is not None:
             self.ex.defer_nonlinear = nonlinear == "defer"
 
@@ -660,7 +660,7 @@ class Runner:
         def body():
             from . import np as snp
 
-            snp.set_policy(gather="ite", sort="ite", search="auto")
+            snp.set_policy(gather="ite", sort="ite", search="auto", fold=False)
             runner.ex.defer_nonlinear = False
             snp.declare_float_atoms([])
             h = SymH(runner)
